@@ -199,7 +199,7 @@ class Run:
 
 MODEL_FREE_ADAPTERS = {"cooler._reduce:CoolerCoarsener._aggregate", "cooler.api:annotate",
                        "cooler.create._create:create_from_unordered", "cooler.fileops:list_coolers", "cooler.fileops:list_scool_cells",
-                       "cooler.fileops:is_scool_file", "cooler.fileops:is_multires_file"}
+                       "cooler.fileops:is_scool_file", "cooler.fileops:is_multires_file", "cooler.create._ingest:ArrayLoader.__iter__"}
 
 
 def replay_refuted(run, name, info, args_by_label):
